@@ -272,6 +272,13 @@ def t_evict(ctx):
         await bus.wait_until_idle()
         st['idle'] = True
         ctx.obs('idle', bus=bus)
+        if ctx.cfg.get('redispatch_old'):
+            # the same (completed, possibly evicted) event objects are dispatched again while the history is full
+            for lab in [l for l in ('C0', 'C1', 'W0') if l in ctx.events]:
+                m.dispatch(bus, ctx.events[lab])
+                ctx.obs('after_dispatch', bus=bus)
+            await bus.wait_until_idle()
+            ctx.obs('idle', bus=bus)
 
     ctx.run(main())
     tr = Trace(ctx.records)
@@ -324,4 +331,6 @@ def jobs(tier):
         out.append(Job('C13', 's1.evict', t_evict, dict(N=N, child_handler=True, awaited=N - 1, bmax=3 if tier == 'quick' else 6)))
     for N in (2, 3):
         out.append(Job('C13', 's1.evict', t_evict, dict(N=N, child_handler=True, await_oldest=True, bmax=4 if tier == 'quick' else 7)))
+    for N in (1, 2, 3):
+        out.append(Job('C13', 's1.evict', t_evict, dict(N=N, child_handler=True, redispatch_old=True, bmax=N - 1 if N > 1 else 0, awaited=2)))
     return out
